@@ -49,9 +49,36 @@ def programs(ctx, n):
     return progs
 
 
+def tie_programs():
+    """many bindings with *equal* reference counts, introduced through every kind of multi-name construct: any set or dict
+    whose iteration order leaks into the binding order shows up as a different assignment of the short names"""
+    names = ['alpha_name', 'beta_name', 'gamma_name', 'delta_name', 'epsilon_name', 'zeta_name', 'eta_name', 'theta_name']
+    out = []
+    out.append('def update_all():\n    global %s\n' % ', '.join(names) + ''.join('    %s = 1\n' % n for n in names) + 'update_all()\nprint(%s)\n' % ', '.join(names))
+    out.append('def update_all():\n    global %s\n    global %s\n' % (', '.join(names[:4]), ', '.join(names[4:])) + ''.join('    %s = %s\n' % (n, m) for n, m in zip(names, names[1:] + names[:1])))
+    out.append('def outer_function():\n' + ''.join('    %s = 0\n' % n for n in names) + '    def inner_function():\n        nonlocal %s\n' % ', '.join(names) +
+               ''.join('        %s += 1\n' % n for n in names) + '    return inner_function\n')
+    out.append('from os import %s\nprint(%s)\n' % (', '.join('%s as %s' % (m, n) for m, n in zip(['path', 'sep', 'getcwd', 'name', 'linesep', 'curdir', 'pardir', 'extsep'], names)), ', '.join(names)))
+    out.append('import %s\nprint(%s)\n' % (', '.join('os.path as %s' % n for n in names), ', '.join(names)))
+    out.append('def many_parameters(%s):\n    return [%s]\n' % (', '.join(names), ', '.join(names)))
+    out.append('def many_keywords(*, %s):\n    return {%s}\n' % (', '.join('%s=None' % n for n in names), ', '.join(names)))
+    out.append('class Holder:\n' + ''.join('    %s = %d\n' % (n, i) for i, n in enumerate(names)) + '    total = [%s]\n' % ', '.join(names))
+    out.append('def literals_function():\n    return [%s]\n' % ', '.join("'literal number %d', 'literal number %d'" % (i, i) for i in range(8)))
+    out.append('values = {%s}\nprint(%s)\n' % (', '.join("'key %d is long': 'key %d is long'" % (i, i) for i in range(6)), ', '.join("'key %d is long'" % i for i in range(6))))
+    out.append('def unpacking(source_value):\n    (%s) = source_value\n    del %s\n' % (', '.join(names), ', '.join(names)))
+    out.append('def handlers():\n' + ''.join('    try:\n        pass\n    except ValueError as %s:\n        print(%s)\n' % (n, n) for n in names[:4]))
+    out.append('def comprehensions(source_value):\n    return [(%s) for %s in source_value]\n' % (', '.join(names), ', '.join(names)))
+    out.append('def matcher(subject_value):\n    match subject_value:\n        case {"k": %s, **%s}:\n            return %s, %s\n        case [%s, *%s]:\n            return %s, %s\n' % (
+        names[0], names[1], names[0], names[1], names[2], names[3], names[2], names[3]))
+    out.append('__all__ = [%s]\n' % ', '.join(repr(n) for n in names[:4]) + ''.join('%s = %d\n' % (n, i) for i, n in enumerate(names)) + 'print(%s)\n' % ', '.join(names))
+    out.append('def type_parameters[%s](argument_value):\n    return (%s)\n' % (', '.join(n.title().replace('_', '') for n in names[:4]), ', '.join(n.title().replace('_', '') for n in names[:4])))
+    return out
+
+
 def hash_seeds(ctx, progs, seeds):
     import tempfile
     work = [(p, OPTSETS[i % len(OPTSETS)]) for i, p in enumerate(progs)]
+    work += [(p, o) for p in tie_programs() for o in OPTSETS]
     fd, path = tempfile.mkstemp(prefix='pmv-c11-', suffix='.json')
     os.close(fd)
     try:
